@@ -29,35 +29,6 @@ class C07Scenario(ChangeScenario):
     name = 'c07'
     prop = 'C07'
 
-    def deliverable(self, env: Env, s: Stream, item: Any) -> bool:
-        """Network holds: events caused after the user's last edit are released at chosen instants."""
-        holds = self.params.get('holds')
-        if not holds or not isinstance(item, dict) or item.get('type') not in ('ADDED', 'MODIFIED', 'DELETED'):
-            return True
-        rv = int(item['object']['metadata']['resourceVersion'])
-        actor = None
-        user_rv = 0
-        for w in env.world.writes:
-            if w['post'] is None:
-                continue
-            wrv = int(w['post']['metadata']['resourceVersion'])
-            if w['actor'] == 'user':
-                user_rv = max(user_rv, wrv)
-            if wrv == rv:
-                actor = w['actor']
-        if rv <= user_rv:
-            return True
-        for start, end, which in holds:
-            if start <= env.now < end:
-                if which == 'all' or (which == 'echo' and actor is not None and actor.startswith('op:')):
-                    return False
-        return True
-
-    def instants(self, env: Env) -> Iterable[float]:
-        for start, end, which in self.params.get('holds', []):
-            yield start
-            yield end
-
     def check(self, env: Env) -> list[Violation]:
         out: list[Violation] = []
         if env.end_reason in ('stall', 'livelock', 'step-budget'):
